@@ -940,18 +940,19 @@ func DeleteHistoricVersions(ctx context.Context, s *DB, before time.Time) error 
 		return fmt.Errorf("get historic roots: %w", err)
 	}
 	for _, l := range nodes {
+		// mast skips storing a node whose name the node cache contains,
+		// and nodes are content-named: a later version can contain this
+		// node's content again and must store it again. Evict first: the
+		// object may be gone even if the delete reports an error.
+		if c, ok := s.cfg.NodeCache.(interface{ Remove(key interface{}) }); ok {
+			c.Remove(fmt.Sprintf("%s/%s", s.persist.NodeURLPrefix(), l))
+		}
 		_, err := s.s3Client.DeleteObjectWithContext(ctx, &s3.DeleteObjectInput{
 			Key:    aws.String(s.persist.(*persistEncryptor).Prefix + l),
 			Bucket: aws.String(s.persist.(*persistEncryptor).BucketName),
 		})
 		if err != nil {
 			return fmt.Errorf("delete node: %s: %w", l, err)
-		}
-		// mast skips storing a node whose name the node cache contains,
-		// and nodes are content-named: a later version can contain this
-		// node's content again and must store it again.
-		if c, ok := s.cfg.NodeCache.(interface{ Remove(key interface{}) }); ok {
-			c.Remove(fmt.Sprintf("%s/%s", s.persist.NodeURLPrefix(), l))
 		}
 	}
 	for _, l := range roots {
